@@ -932,11 +932,15 @@ package collection
 //@   modifies mapof(c.data), lruHas[c.lruCache], lruN[c.lruCache], lruMru[c.lruCache]
 
 //@ func (c *Cache) onEvict
-//@   property C16
+//@   property C16 C12
 //@   requires held(c.lock)
 //@   requires c != nil && c.data != nil && c.timingWheel != nil
 //@   ensures  !inDom(c.data, key) && forall(s.(string), implies(s != key, inDom(c.data, s) == old(inDom(c.data, s)) && implies(inDom(c.data, s), c.data[s] == old(c.data[s]))))
 //@   ensures  len(c.data) == old(len(c.data)) - ite(old(inDom(c.data, key)), 1, 0)
+// an evicted entry's expiry timer is removed with it (a removed timer never fires; left behind it would fire for a key that
+// may have been set again meanwhile)
+//@   call RemoveTimer#0: assert boxed(key) == arg_key && arg_recv == c.timingWheel
+//@   ensures  twRemoves == old(twRemoves) + 1
 //@   modifies mapof(c.data), twRemoves
 
 //@ func (cs *cacheStat) IncrementHit
